@@ -75,6 +75,8 @@ CLASS_OF = [
     ('decreases not satisfied', 'decreases'),
     ('loop must have a decreases', 'no-measure'),
     ('assertion failed', 'assert'),
+    ('requires not satisfied', 'assert'),
+    ('assertion not satisfied', 'assert'),
     ('unreachable', 'unreachable'),
     ('Resource limit', 'rlimit'),
     ('could not prove termination', 'decreases'),
@@ -202,6 +204,13 @@ def run_uncached(repo, gen_dir, seed, rlimit, threads, verbose):
             clause = prim
         fnr = sm.fn_at(site['byte_start']) or sm.fn_at(prim['byte_start'])
         f['fn'] = fnr['path'] if fnr else None
+        if fnr is None:
+            # inside the spec library / prelude: name the enclosing proof fn
+            tb = text.encode('utf-8')[:prim['byte_start']].decode('utf-8', 'ignore')
+            mm = None
+            for mm in re.finditer(r'(?:proof|exec|spec)?\s*fn\s+(\w+)', tb):
+                pass
+            f['fn'] = 'spec::' + (mm.group(1) if mm else '?')
         f['module'] = fnr['module'] if fnr else None
         org, rel = sm.origin(site['byte_start'])
         f['site_origin'] = list(org)
@@ -261,6 +270,8 @@ def main():
         print(fn)
         for f in fs:
             print('   %-9s %-28s %s | %s' % (f['class'], f.get('label', ''), f.get('site_text', '')[:70], f.get('clause_text', '')[:60]))
+            if f['class'] == 'unsupported':
+                print(f.get('rendered', '')[:800])
     return 0
 
 
